@@ -1021,6 +1021,9 @@ func (fc *fnCtx) havocHeap(tag, keep string, keepGhost bool) {
 		for _, sr := range c.stackRefs {
 			k = fmt.Sprintf("(or %s (= r %s))", k, sr)
 		}
+		for _, sr := range c.immRefs {
+			k = fmt.Sprintf("(or %s (= r %s))", k, sr) // string data is immutable
+		}
 	}
 	if keep != "" {
 		k = fmt.Sprintf("(or %s %s)", k, keep)
